@@ -206,6 +206,32 @@ def run(ctx):
             "rest-with-name-class", tx.where, "the remaining characters are not tested with the name-character class",
             wrong=[("nonXmlNameFirstBMPRegexp.findall(" in src, None)])
 
+    # every exit of toXmlName has applied both tests (no early return that skips the stricter first-character class)
+    from ..cfg import CFG, node_calls
+    tcfg = CFG(tx.node)
+    rets = [n for n in tcfg.stmt_nodes() if n.kind == "stmt" and isinstance(n.ast, ast.Return)]
+    for label, cls_name in (("first", "nonXmlNameFirstBMPRegexp"), ("rest", "nonXmlNameBMPRegexp")):
+        def applies(n, cls_name=cls_name):
+            return any(isinstance(c.func, ast.Attribute) and norm(c.func.value) == cls_name and c.func.attr in ("match", "findall", "search", "sub", "finditer")
+                       for c in node_calls(n))
+        first_only = label == "first"
+        bad = []
+        for rt in rets:
+            def applies_here(n, applies=applies, first_only=first_only):
+                if not applies(n):
+                    return False
+                if first_only:
+                    # the first-character class must be applied to the first character, not used as a whole-name pre-filter
+                    return any("[0]" in norm(c) or "nameFirst" in norm(c) for c in node_calls(n))
+                return True
+            if tcfg.must_precede([rt], applies_here):
+                bad.append(rt)
+        r.check("R20.4", not bad, "every-exit-tested-with-%s-class" % label, "%s:%d" % (REL, (bad[0].ast.lineno if bad else tx.node.lineno)),
+                "toXmlName can return (line %s) without having tested the %s with %s: a name that is legal by the other class only "
+                "(e.g. starting with a digit, '-' or '.') is returned unchanged and is not a legal XML name"
+                % (bad[0].ast.lineno if bad else "?", "first character" if first_only else "remaining characters", cls_name),
+                detail={"exits": len(rets)})
+
     # ---- R20.5
     init = cls.methods["__init__"]
     flags = [a.arg for a in init.node.args.args[1:]]
